@@ -13,6 +13,7 @@ from ..runner import execute
 from .common import V, small_sample
 
 ID = "C18"
+INF = float("inf")
 LEVEL = "exploration"
 RULE = (
     "(A) operation history = 1-40 operations (filter_insert(a,b) / update(prev,next) through stub iterates) on a real "
@@ -93,9 +94,12 @@ def _ops_case(world):
 
     c = world["case"]
     kind = c["kind"]
-    tiny = {"family": "qp", "n": 1, "m": 1, "Q": [[1.0]], "q": [0.0], "a": [0.0], "A": [[1.0]], "B": [[0.0]], "b": [0.0], "xl": [-1.0], "xu": [1.0], "cl": [0.0], "cu": [0.0], "dom": None}
+    # f(x) = x_0, c(x) = x_1 = 0, no bounds: the real Iterate at x = (a, b) has objective a and violation |b|
+    # exactly (one multiplication by 1, one by 0), so "update" operations run on real iterates
+    tiny = {"family": "qp", "n": 2, "m": 1, "Q": [[0.0, 0.0], [0.0, 0.0]], "q": [1.0, 0.0], "a": [0.0, 0.0], "A": [[0.0, 1.0]], "B": [[0.0, 0.0]], "b": [0.0], "xl": [-INF, -INF], "xu": [INF, INF], "cl": [0.0], "cu": [0.0], "dom": None}
     prob = SimProblem(tiny)
     prm = Params(rho=c["rho0"])
+    from pygradflow.iterate import Iterate
     flt = (ObjectivePenaltyFilter if kind == "objective" else LagrangianPenaltyFilter)(prob, prm)
     ref = RefFilter()
     rho = c["rho0"]
@@ -117,10 +121,14 @@ def _ops_case(world):
             got = flt.filter_insert(*pair)
             bump("ops.insert")
         else:
-            pair = _entry_model(a, b, kind)
+            it = Iterate(prob, prm, np.array([a, b], dtype=float), np.array([0.25 * a], dtype=float))
+            pair = tuple(float(v) for v in flt.iterate_entry(it))
+            if kind == "objective" and pair != (float(a), abs(float(b))):
+                viol.append(V(ID, "pair", "op %d: the objective filter formed the pair %r from an iterate with objective %r and violation %r" % (i, pair, a, abs(b)), sub, ctx))
+                break
             before = len(ref.entries)
             exp = ref.insert(*pair)
-            res = flt.update(None, _StubIterate(a, b, kind))
+            res = flt.update(it, it)
             got = bool(res.accept)
             bump("ops.update")
             if not exp:
